@@ -16,6 +16,7 @@ Import ListNotations.
 
 Section Spec.
 Variable sig_ok : N -> N -> N -> N -> bool.
+Variable K : list crl.        (* the CRLs the application has loaded, in cache order, before validation *)
 
 (* what the parser guarantees about every certificate that reaches the validator (parse_gate):
    X.509 v3.  Unknown critical extensions and disabled algorithms never get this far. *)
@@ -25,7 +26,28 @@ Definition is_ca (c : cert) : Prop := c_ca c = c_CA_TRUE.
 (* keyCertSign when keyUsage is present *)
 Definition ku_certsign (c : cert) : Prop :=
   c_ku c <> 0%N -> N.land (c_ku c) n_KEY_USAGE_KEY_CERT_SIGN <> 0%N.
-Definition not_revoked (c : cert) : Prop := c_rev c <> c_CRL_CHECK_REVOKED_AND_AUTHENTICATED.
+
+(* Revocation.  A certificate is identified by (issuer name, serial number); the serial number is the
+   INTEGER value, which for DER (minimal two's-complement content octets - assumed of every certificate
+   and CRL entry, neither parser enforces it) is the same as equality of the content octets: 00 C4 and C4
+   are different numbers (196 and -60), 00 C4 and 00 00 C4 would be the same number but the second is not DER.
+   The CRL that speaks for an issuer name is the first one in the cache with that name (the library never
+   looks further); it counts when the application (or an earlier validation) authenticated it and it is
+   current: not marked expired and nextUpdate not over. *)
+Definition crl_for (c : cert) : option crl := find (fun r => (r_iss r =? c_iss c)%N) K.
+Definition crl_current (r : crl) : Prop := r_expired r = false /\ (0 <= r_next r)%Z.
+Definition listed (c : cert) (r : crl) : Prop := existsb (serial_eq (c_serial c)) (r_serials r) = true.
+Definition revoked_in (c : cert) : Prop :=
+  exists r, crl_for c = Some r /\ r_auth r = true /\ crl_current r /\ listed c r.
+Definition not_revoked (c : cert) : Prop := ~ revoked_in c.
+(* nothing at all is said about the certificate by the CRL that speaks for its issuer *)
+Definition not_listed (c : cert) : Prop := forall r, crl_for c = Some r -> ~ listed c r.
+(* at most one cached CRL per issuer name (what psCRL_Update maintains), none of them stale:
+   then "the first one" is "the one", and revoked_in is the property's clause word for word *)
+Definition cache_tidy : Prop :=
+  NoDup (map r_iss K) /\ Forall crl_current K.
+Definition revoked_by_loaded_crl (c : cert) : Prop :=
+  exists r, In r K /\ r_iss r = c_iss c /\ r_auth r = true /\ listed c r.
 
 (* [ic] genuinely issued [sc] *)
 Definition issued_by (sc ic : cert) : Prop :=
@@ -119,13 +141,13 @@ Definition claims (top a : cert) : Prop :=
    non-self-issued CA certificate *)
 Definition top_supported (top a : cert) : Prop :=
   (issued_by top a /\ link_supported top a) \/
-  (same_cert top a /\ c_iss top <> c_subj a /\ is_ca a /\ not_revoked top).
+  (same_cert top a /\ c_iss top <> c_subj a /\ is_ca a).
 
 Definition supported_path (rv : bool) (chain : list cert) (before : list cert) (a : cert) : Prop :=
   exists leaf below top,
     chain = leaf :: below /\ last chain leaf = top /\
     links_supported chain /\ top_supported top a /\
-    pathlens 0 (chain ++ [a]) /\ Forall (valid_now rv) chain /\
+    pathlens 0 (chain ++ [a]) /\ Forall (valid_now rv) chain /\ Forall not_listed chain /\
     (rv = true -> valid_now rv a) /\
     eku_ok leaf /\ c_st0 leaf = 0%Z /\
     Forall (fun a' => ~ claims top a') before.
